@@ -47,15 +47,23 @@ Section G.
     | ScTok (t : tk) (k : ckind)
     | ScPlus (p d : tk)
     | ScMinus (m d : tk)
-    | ScBool (b h v : tk) (val : bool).
+    | ScBool (b h v : tk) (val : bool)
+    | ScSignedR (sg d : tk) (neg : bool)                                             (* +1.5  -1.5 *)
+    | ScTyped (k : tykw) (ty hs : tk) (sg : option (tk * bool)) (v : tk) (l : sleaf).  (* INT#5 INT#-5 REAL#1.5 WORD#16#FF *)
   Definition flat_c (c : sconst) : list tk :=
-    match c with ScTok t _ => [t] | ScPlus p d => [p; d] | ScMinus m d => [m; d] | ScBool b h v _ => [b; h; v] end.
+    match c with
+    | ScTok t _ => [t] | ScPlus p d => [p; d] | ScMinus m d => [m; d] | ScBool b h v _ => [b; h; v]
+    | ScSignedR sg d _ => [sg; d]
+    | ScTyped _ ty hs sg v _ => ty :: hs :: match sg with Some (s, _) => [s; v] | None => [v] end
+    end.
   Definition erase_c (c : sconst) : sleaf :=
     match c with
     | ScTok t k => leaf_of k t
     | ScPlus _ d => LfInt false (num d)
     | ScMinus _ d => LfInt true (num d)
     | ScBool _ _ _ val => LfBool val
+    | ScSignedR _ d neg => LfReal None (Some neg) (txt d)
+    | ScTyped _ _ _ _ _ l => l
     end.
   Definition wf_c (c : sconst) : Prop :=
     match c with
@@ -63,24 +71,42 @@ Section G.
     | ScPlus p d => cl p = COp BAdd /\ cl d = CConst CkInt
     | ScMinus m d => cl m = CMinus /\ cl d = CConst CkInt
     | ScBool b h v val => cl b = CBoolT /\ cl h = CHash /\ cl v = CConst (if val then CkTrue else CkFalse)
+    | ScSignedR sg d neg => cl sg = (if neg then CMinus else COp BAdd) /\ is_real_c (cl d) = true
+    | ScTyped k ty hs sg v l =>
+        cl ty = CTyKw k /\ cl hs = CHash /\
+        match sg with
+        | Some (s, b) => cl s = (if b then CMinus else COp BAdd) /\ StParser.typed_leaf tk cl txt num k (Some b) v = Some l
+        | None => StParser.typed_leaf tk cl txt num k None v = Some l
+        end
     end.
 
   Lemma pconst_at c r : wf_c c -> pconst (flat_c c ++ r) = Some (erase_c c, r).
   Proof.
-    destruct c as [t k|p d|m d|b h v val]; cbn [wf_c flat_c erase_c app]; unfold DeclParser.pconst.
+    destruct c as [t k|p d|m d|b h v val|sg d neg|k ty hs sg v l]; cbn [wf_c flat_c erase_c app]; unfold DeclParser.pconst.
     - intro H. rewrite H. reflexivity.
     - intros (Hp & Hd). rewrite Hp, Hd. reflexivity.
     - intros (Hm & Hd). rewrite Hm, Hd. reflexivity.
     - intros (Hb & Hh & Hv). rewrite Hb, Hh, Hv. destruct val; reflexivity.
+    - intros (H1 & H2). rewrite H1. unfold is_real_c in *.
+      destruct (cl d) as [| |k| | | | | | | | | | | |o| | |kw| | |tk0|dk| |] eqn:Ed; try discriminate H2.
+      destruct k; try discriminate H2; destruct neg; reflexivity.
+    - intros (H1 & H2 & H3). rewrite H1. destruct sg as [[s b]|]; cbn [app].
+      + destruct H3 as (Hs & Hl). rewrite H2.
+        assert (Es : sign_of (cl s) = Some b) by (rewrite Hs; destruct b; reflexivity). rewrite Es, Hl. reflexivity.
+      + rewrite H2. assert (Es : sign_of (cl v) = None).
+        { unfold StParser.typed_leaf in H3. destruct (fam k); destruct (cl v) as [| |c| | | | | | | | | | | |o| | |kw| | |tk0|dk| |]; try discriminate H3; reflexivity. }
+        rewrite Es, H3. reflexivity.
   Qed.
 
   Lemma flat_c_head c r : wf_c c -> exists t r', flat_c c ++ r = t :: r' /\ solid t /\ is_lp (cl t) = false.
   Proof.
-    destruct c as [t k|p d|m d|b h v val]; cbn [wf_c flat_c app]; intro H.
+    destruct c as [t k|p d|m d|b h v val|sg d neg|k ty hs sg v l]; cbn [wf_c flat_c app]; intro H.
     - exists t, r. unfold StExprProofs.solid. rewrite H. repeat split; discriminate.
     - destruct H as (H & _). eexists p, _. unfold StExprProofs.solid. rewrite H. repeat split; discriminate.
     - destruct H as (H & _). eexists m, _. unfold StExprProofs.solid. rewrite H. repeat split; discriminate.
     - destruct H as (H & _). eexists b, _. unfold StExprProofs.solid. rewrite H. repeat split; discriminate.
+    - destruct H as (H & _). eexists sg, _. unfold StExprProofs.solid. rewrite H. destruct neg; repeat split; discriminate.
+    - destruct H as (H & _). eexists ty, _. unfold StExprProofs.solid. rewrite H. repeat split; discriminate.
   Qed.
 
   (* ---- spelled name lists:  n1 _ , _ n2 ... ---- *)
@@ -798,11 +824,23 @@ Section G.
 
   Lemma scoped_c c : wf_c c -> scoped (flat_c c).
   Proof.
-    destruct c as [t k|p d|m d|b h v val]; cbn [wf_c flat_c].
+    destruct c as [t k|p d|m d|b h v val|sg d neg|k ty hs sg v l]; cbn [wf_c flat_c].
     - intro H. sc.
     - intros (H & H0). sc.
     - intros (H & H0). sc.
     - intros (H1 & H2 & H3). eapply scoped_bool; try eassumption. apply scoped_nil.
+    - intros (H1 & H2). apply scoped_cons; [rewrite H1; destruct neg; reflexivity|]. apply scoped_tok.
+      unfold is_real_c in H2. destruct (cl d); try discriminate H2. reflexivity.
+    - intros (H1 & H2 & H3).
+      assert (Hf : fam k <> TfOther /\ exists c, cl v = CConst c).
+      { assert (Hl : exists o, StParser.typed_leaf tk cl txt num k o v = Some l) by (destruct sg as [[s b]|]; [destruct H3 as (_ & H3) |]; eexists; exact H3).
+        destruct Hl as (o & Hl). unfold StParser.typed_leaf in Hl.
+        destruct (fam k); [| | |discriminate Hl]; (split; [discriminate|]);
+          destruct (cl v) as [| |c| | | | | | | | | | | |o0| | |kw| | |tk0|dk| |]; try discriminate Hl; eexists; reflexivity. }
+      destruct Hf as (Hf & c & Hv). destruct sg as [[s b]|].
+      + destruct H3 as (Hs & _). eapply scoped_typed; [exact H1 | exact Hf | exact H2|].
+        apply scoped_cons; [rewrite Hs; destruct b; reflexivity|]. apply scoped_tok. rewrite Hv. reflexivity.
+      + eapply scoped_typed; [exact H1 | exact Hf | exact H2|]. apply scoped_tok. rewrite Hv. reflexivity.
   Qed.
 
   Lemma scoped_nms ms : Forall wf_nm ms -> scoped (flat_nms ms).
